@@ -109,7 +109,7 @@ def finalize(agg, tier):
         need("forged:" + s)
         need("structured_done:" + s)
     for n in ("odd_size_keys", "keys_bits_1_mod_8", "pss_em_longer_than_emLen_built", "refused:pss-salt-too-long",
-              "boundary_keys:pkcs1v15", "boundary_keys:pss",
+              "boundary_keys:pkcs1v15", "boundary_keys:pss", "special_scalar_keys:ecdsa", "special_scalar_keys:dsa",
               "refused:ctx256", "shortkey_done", "structured_done:dsa", "structured_done:ecdsa",
               "structured_done:ecdsa-constructed", "wycheproof_285_shown", "edge_done:ed25519", "edge_done:ed448",
               "pss_salt_class:0", "pss_salt_class:1", "pss_salt_class:hlen", "pss_salt_class:max", "pss_salt_class:default",
